@@ -99,6 +99,17 @@ const DECL_LINES: &[&str] = &[
     "zf :: fn a -> a(a) end",
     "zg :: fn a, b do\n    a.x * b.y\nend\nzg(1, 2)",
     "Zr :: blob { next: Zr }",
+    // mutual recursion between top-level functions, and between values
+    "ze :: fn n -> bool do\n    if n == 0 do ret true end\n    ret zo(n - 1)\nend\nzo :: fn n -> bool do\n    if n == 0 do ret false end\n    ret ze(n - 1)\nend",
+    "zp :: zq\nzq :: zp",
+    "zh :: fn -> zh() end",
+    // string literals that span lines, with characters of several UTF-8 widths
+    "zs1 := \"äöü\n\"\nzs1 <=> zs1",
+    "zs2 := \"日本語のテキスト😀😀😀\nx\"\nprint(zs2)",
+    "zs3 := \"line one\nline two\nline three\"",
+    "zs4 := \"é\n\n\n\"; zs4",
+    "\"unterminated ååå",
+    "zs5 := \"ends with a backslash\\\"",
     "Ze :: enum\n    A Ze,\n    B,\nend",
 ];
 
@@ -381,8 +392,13 @@ fn long_literal_program(r: &mut Rng) -> String {
         let mut lit = String::new();
         for _ in 0..r.range(1, 3) {
             let n = *r.pick(&[10usize, 500, 1100, 3000, 9000]);
+            let wide = r.chance(1, 3);
             for _ in 0..n {
-                lit.push((b'a' + r.below(26) as u8) as char);
+                if wide && r.chance(1, 6) {
+                    lit.push(*r.pick(&['å', 'ö', 'é', '日', '本', '😀', '→']));
+                } else {
+                    lit.push((b'a' + r.below(26) as u8) as char);
+                }
             }
             if r.chance(2, 3) {
                 lit.push('\n');
